@@ -26,6 +26,12 @@ newly live shadowed slots until nothing changes (a single extra pass frees a slo
 chain of three shadowed bindings). -/
 theorem gen_recycler_fixpoint : recyclerIteratesToFixpoint = true := by decide
 
+/-- A live continuation's pending code (the functions of its captured frames and the top-level instructions they
+return into) mentions global slots exactly like a function body; this obligation stops checking when
+`GlobalSlotRecycler::visit_continuation` no longer hands that code to the scan (finding K06d, fixed in /repo
+f2f700ff: a continuation resumed after a recycler run read a reclaimed slot). -/
+theorem gen_recycler_scans_continuations : recyclerScansContinuationCode = true := by decide
+
 /-! ## `SymbolMap::add` / `get` -/
 
 theorem find_mapInsert (map : List (Name × Nat)) (n n' : Name) (i : Nat) :
